@@ -11,6 +11,10 @@ CLAIMED = {
         text="Proof, per function, of every Unpack implementation and of the two decoder entry points: all implicit runtime checks (index, slice, nil, make), consumed<=len(data) on success, no slice expression past len of an input-derived slice (confine), a decreasing variant for every loop, and the declared write frame; callers are checked against callee contracts. All inputs, lengths and capacities at once.",
         note="Assumes: go/ssa semantics, 64-bit int, closed world of implementers, util.Logger==nil, error variables non-nil, assumed contracts for bytes.TrimRight / charmap Decoder.Bytes / fmt / errors. Socket receiver loops (serveUDPSocket/serveTCPSocket) are covered only once environment operations are modelled; see evidence 'outside_reach'.",
         ref="§3 C01"),
+    "C15": dict(
+        text="Proof, for every type the type checker finds implementing util.Packable (Size and Pack of all 31 implementers), util.PackString, knxnet.Pack and knxnet.AllocAndPack: no panic when len(buffer) >= Size(), only buffer[0:Size()) is written (frame check over the whole heap), and a relational two-run obligation that every byte of buffer[0:Size()) is independent of the buffer's previous content; header service/length fields and len(AllocAndPack(v)) == Size+6 as post-conditions.",
+        note="Assumes as C01 plus: deep separation of the value from the output buffer (requires sepdeep), LData.Data is *AppData/*ControlData, 6-byte hardware address, charmap encoder deterministic. BOUNDED: SupportedServicesDIB.Pack is proved for at most 5 service families (loop unrolled; its quantified invariant did not discharge), which also bounds SearchRes/DescriptionRes. Socket Send (one write of that buffer) is not covered until environment operations are modelled.",
+        ref="§3 C15"),
 }
 
 NA = {
